@@ -195,8 +195,10 @@ def parse_with_formats(date_string, date_formats, settings):
                     _check_strict_parsing(_get_missing_parts(date_format), settings)
                 except ValueError:
                     continue
-            missing_month = not any(m in date_format for m in ["%m", "%b", "%B"])
-            missing_day = "%d" not in date_format
+            missing_month = not any(
+                m in date_format for m in ["%m", "%b", "%B", "%j"]
+            )
+            missing_day = not any(d in date_format for d in ["%d", "%j"])
             if missing_month and missing_day:
                 period = "year"
                 date_obj = set_correct_month_from_settings(date_obj, settings)
